@@ -49,6 +49,18 @@ def run(rep, tier, seed):
             rep.cov["evaluations"] += r["objects"]
             if r["bad"]:
                 rep.violation("native:wrong-objects", "native sessions delivered wrong objects: %s" % r, r)
+    # several File objects used at the same time (each session from its own application thread): process-wide
+    # state shared between sessions (static buffers) is a race between the worker threads of different sessions
+    results, other, rc, err = vlib.run_driver(exes["drv_native"], ["pair", d, seed + 77, 1 if tier == "quick" else 4], timeout=1500)
+    if rc != 0 or not results:
+        rep.violation("tsan:pair", "ThreadSanitizer/driver failure with three sessions at the same time rc=%s: %s"
+                      % (rc, err[-1200:].replace("\n", " | ")), dict(rc=rc, stderr=err))
+    else:
+        r = results[0]
+        tot += r["sessions"]
+        rep.cov["evaluations"] += r["objects"]
+        if r["bad"] or r["differ"]:
+            rep.violation("native:pair", "sessions running at the same time disturb each other: %s" % r, r)
     rep.cov["tsan_sessions"] = tot
     rep.cov["traces_validated_against_impl"] += tot
     rep.cov["distinct_nontrivial"] = sum(m["edges"] for m in rep.cov.get("m1", []))
